@@ -371,6 +371,39 @@ def run(ctx):
                             argf.add("closure")
                 r7.check("extended_protocol_data_buffer" in argf, "batch-known-from-buffer", "the caller derives `an earlier Parse is buffered` from extended_protocol_data_buffer", "the batch-stickiness flag is not derived from the buffered batch (%s)" % sorted(argf), c.where())
             r7.check(len(bp) >= 1, "buffered-parse-site", "%d site(s) buffer a Parse before the checkout" % len(bp), "no buffered Parse before the checkout")
+    # ---------------- R8 (D47) a batch that only executes a statement prepared earlier is routed for that statement
+    r8 = ctx.rule("C05-R8", "`the decision is recomputed for each new transaction`: a batch made of Bind / Execute / Sync for a named statement prepared earlier contains no Parse, so the idle loop has to infer the role "
+                  "from the stored statement when it buffers the Bind - otherwise the batch runs wherever the previous transaction's statement was routed (a prepared INSERT after a SELECT: on a replica)", floor=2)
+    if h:
+        rm8 = [c.block for c in h.calls("pgcat::messages::read_message")]
+        heads8 = [hd for hd in loop_headers(h) if any(b_ in natural_loop(h, hd) for b_ in rm8)]
+        claim8 = h.calls("pgcat::server::Server::claim")
+        bb8_ = [c for c in h.calls("pgcat::client::Client::buffer_bind") if claim8 and not h.dominates(claim8[0].block, c.block)]
+        if not bb8_:
+            r8.missing("buffer_bind before the checkout (idle loop of Client::handle)")
+        else:
+            pre8 = [c for c in h.calls(*infer_like) if not h.dominates(claim8[0].block, c.block) and any(b_.block in h.reach([c.block], avoid_blocks=heads8) for b_ in bb8_)]
+            r8.check(bool(pre8), "bind-of-prepared-statement=>role-inferred", "the idle loop infers the role (%s) before it buffers a Bind" % sorted({c.name.split("::")[-1] for c in pre8}),
+                     "the idle loop buffers a Bind without inferring anything: `Bind w / Execute / Sync` for a statement prepared earlier is checked out with the role the last inferred statement left behind - "
+                     "with the statement cache on, a prepared INSERT executed after a SELECT is prepared and run on a replica", bb8_[0].where())
+            for c in pre8:
+                # what is inferred is a statement text pgcat keeps for the name (not the Bind message, which has no SQL in it)
+                srcs = set()
+                for o in origins(h, c.args[1], taint=True):
+                    if o.kind == "call":
+                        srcs.add(o.call.name)
+                r8.check("pgcat::query_router::QueryRouter::parse" in srcs and any(n_.startswith("pgcat::client::Client::") for n_ in srcs), "inferred-from-the-stored-statement",
+                         "the inferred AST is parsed from what Client keeps for the bound name (%s)" % sorted(n_.split("::")[-1] for n_ in srcs if n_.startswith("pgcat::client::Client::")),
+                         "the AST inferred at Bind time does not come from the statement stored for the bound name (%s)" % sorted(srcs), c.where())
+                if c.name != INFER:
+                    argf = set()
+                    for a in c.args[2:]:
+                        for o in origins(h, a, taint=True):
+                            if o.kind in ("place", "param"):
+                                argf.update(p_[1:] for p_ in o.proj if p_.startswith(".") and not p_[1:].isdigit())
+                            if o.kind == "agg" and o.extra.get("agg") == "closure":
+                                argf.add("closure")
+                    r8.check("extended_protocol_data_buffer" in argf or "closure" in argf, "bind-batch-known-from-buffer", "`an earlier statement of this batch exists` is derived from the buffered batch", "the batch-stickiness flag at Bind time is not derived from the buffered batch (%s)" % sorted(argf), c.where())
     # ---------------- R5 role filter
     r5 = ctx.rule("C05-R5", "ConnectionPool::get only considers servers whose role matches the requested role (None = any); the candidate list is afterwards only shuffled, narrowed, sorted or popped", floor=3)
     g = ctx.body(GETC, r5)
